@@ -23,7 +23,7 @@ import time
 
 import z3
 
-from . import build, g1, g2, pysym, runner
+from . import build, g1, g2, pysym, ref, runner
 from .pysym import Bl, Call, Exc, Ite, LD, LL, Ob, Tm, _const_key, _short
 
 
@@ -546,6 +546,65 @@ def rt_lattice(tier):
     return g1._dedup(pts)
 
 
+LOSSY = ("re.Pattern", "typing.Pattern", "datetime.timezone", "zoneinfo", "float", "Any", "TVA", "datetime.timedelta", "Set", "set", "FrozenSet", "frozenset",
+         "AbstractSet", "MutableSet", "ChainMap", "Counter", "Sequence", "MutableSequence", "Mapping", "MutableMapping", "os.PathLike", "bytearray")
+
+
+def rtb_task(payload):
+    """bounded complement of the composition argument: on type-directed sample values the real round trip
+    from_dict(to_dict(x)) and the reference round trip REF_DEC(REF_ENC(v)) both return the value, built from the
+    same classes (types whose basic form is lossy by design or whose canonical class differs from the annotation
+    are compared up to the documented canonical class)"""
+    from . import g4, samples
+
+    pid, texpr = payload
+    src = g4.class_source(texpr)
+    label = f"[{texpr}]"
+    try:
+        mod, _ = build.build_module(src)
+    except Exception as e:
+        return {"obligations": [dict(id=f"{pid}.RTB{label}/builds", status="refuted", detail=f"{type(e).__name__}: {e}"[:300], bounded=True)]}
+    try:
+        cls = mod.C
+        hints = ref.resolved_hints(cls)
+        gen = ref.RefGen()
+        gen.owner = cls
+        try:
+            e_src, d_src = gen.enc(hints["x"], "x"), gen.dec(hints["x"], "x")
+            g4._ref_env(gen)
+            enc_ref, dec_ref = eval("lambda x: " + e_src, gen.ns), eval("lambda x: " + d_src, gen.ns)
+        except Exception:
+            enc_ref = dec_ref = None
+        probs = []
+        n = 0
+        lossy = any(k in texpr for k in LOSSY)
+        for v in samples.instances(hints["x"], cls):
+            if v is None:
+                continue
+            n += 1
+            try:
+                inst = cls(x=v)
+                back = cls.from_dict(inst.to_dict())
+                ok = samples.same(back.x, v) if not lossy else back.x == v
+                if not ok:
+                    probs.append(f"from_dict(C(x={v!r}).to_dict()).x = {back.x!r}")
+            except Exception as e:  # noqa
+                probs.append(f"round trip of x={v!r} raised {type(e).__name__}: {str(e)[:120]}")
+            if enc_ref is not None:
+                try:
+                    rb = dec_ref(enc_ref(v))
+                    ok = samples.same(rb, v) if not lossy else rb == v
+                    if not ok:
+                        probs.append(f"the reference round trip of {v!r} gives {rb!r} (specification-level lemma fails)")
+                except Exception as e:  # noqa
+                    probs.append(f"the reference round trip of {v!r} raised {type(e).__name__}")
+        w = {"confirmed": True, "source": src, "input": probs[0].split(" = ")[0] if probs else "", "why": probs[0]} if probs else None
+        return {"obligations": [dict(id=f"{pid}.RTB{label}/samples", status="proved" if not probs else "refuted", unit=f"{n} sample values", bounded=True,
+                                     detail="; ".join(probs)[:500], witness=w)], "n": n}
+    finally:
+        build.drop_module(mod)
+
+
 def check(pid, tier):
     t0 = time.time()
     obs = []
@@ -575,6 +634,18 @@ def check(pid, tier):
             crashes.append(r["crash"] + " @ " + r["payload"] + "\n" + r["trace"][-600:])
         else:
             obs.extend(r["obligations"])
+    from . import g4
+
+    nb = 0
+    # (the hole type serializes to a dict, which cannot be a key of the basic form: H1-keyed mappings are symbolic-only)
+    for r in runner.run_pool(rtb_task, [(pid, t) for t in g4.type_lattice(tier) if not t.startswith("Final[") and "[H1," not in t and t != "Counter[H1]"], chunks=8):
+        if "crash" in r:
+            crashes.append(r["crash"] + " @ " + r["payload"] + "\n" + r["trace"][-600:])
+            continue
+        nb += r.get("n", 0)
+        obs.extend(o for o in r["obligations"] if o["status"] != "proved")  # bounded: only failures are reported
+    rtb_note = [{"what": "sample round trips through the real to_dict/from_dict and through REF_DEC(REF_ENC(.)) for every type of the lattice", "values": nb,
+                 "note": "bounded complement of the composition argument C02 + C03 + leaf inverses; never counted as proved"}]
     return runner.finish(
         pid, tier, obs, t0,
         technique="(S1) VCs from the real AST of parse_timezone under the regex-structural rule, linear integer arithmetic, z3; (RT) symbolic composition of the generated to_dict and from_dict of every schema point (pysym, z3): the constructor receives exactly the original attribute values on every path",
@@ -583,6 +654,7 @@ def check(pid, tier):
         trusted={"A6 leaf inverses on conforming values: dec_H(enc_H(v)) = v for hole types, int(i) = i for ints; CPython timezone(offset) range and tzname format (cross-checked exhaustively each run)",
                  "A5 regex-structural rule (cross-checked exhaustively against re/int on the pattern's language each run)",
                  "aliased fields round-trip only with serialize_by_alias or allow_deserialization_not_by_alias (documented), which the lattice respects"},
+        bounded=rtb_note,
         functions=["core/helpers.py:parse_timezone (S1, symbolic on the AST)", "core/meta/helpers.py:hash_type_args (S6: key of generic specialisations = digest of full type names, symbolic on the AST)", "<generated> __mashumaro_to_dict__ and __mashumaro_from_dict__ composed"],
         crashes=crashes,
     )
